@@ -1094,3 +1094,106 @@ func init() {
 			}
 		}})
 }
+
+func init() {
+	register(&Rule{ID: "HIST.cover", Min: 4, Text: "identity reconciliation covers every stacked operation that carries an array identity: for every operation type of package operations that offers SetCreatedAt or SetPrevCreatedAt (the setters exist for exactly this purpose), History.ReconcileCreatedAt calls that setter on that type — an operation type left out keeps pointing at the identity an undo has just replaced; on the replica that performs the undo the old tombstone is still next to the new element, on a peer that already collected it the change cannot be applied",
+		Run: func(x *Ctx) {
+			fn := x.fn(docPkg + ".(*History).ReconcileCreatedAt")
+			opI := x.P.Named(opsPkg + ".Operation")
+			if fn == nil || opI == nil {
+				x.C.Unresolved(x.id(), "History.ReconcileCreatedAt / operations.Operation")
+				return
+			}
+			called := map[string]bool{}
+			fns := append([]*ssa.Function{fn}, prog.Closures(fn)...)
+			for _, g := range fns {
+				for _, c := range prog.CallsIn(g) {
+					if o := prog.CallObj(c); o != nil && o.Type().(*types.Signature).Recv() != nil {
+						if nt := namedOf(o.Type().(*types.Signature).Recv().Type()); nt != nil {
+							called[nt.Obj().Name()+"."+o.Name()] = true
+						}
+					}
+				}
+			}
+			n := 0
+			for _, t := range x.P.Implementers(opI) {
+				if t.Obj().Pkg() != opI.Obj().Pkg() {
+					continue
+				}
+				for _, setter := range []string{"SetCreatedAt", "SetPrevCreatedAt"} {
+					if x.P.MethodOf(t, setter) == nil {
+						continue
+					}
+					n++
+					k := t.Obj().Name() + "." + setter
+					x.check(called[k], "op="+t.Obj().Name()+" setter="+setter+" reconciled", x.fpos(fn), "ReconcileCreatedAt re-points this identity", "ReconcileCreatedAt never calls "+k+": a stacked "+t.Obj().Name()+" keeps the identity an undo/redo has replaced and anchors on a tombstone that peers may already have collected")
+				}
+			}
+			if n < 4 {
+				x.C.Vacuous(x.id()+" identity setters", n, 4)
+			}
+		}})
+
+	register(&Rule{ID: "HIST.iter", Min: 1, Text: "stacked undo/redo entries are reconciled after every remote change, not after the pack: in Document.applyChanges every path from applying a change to the document (InternalDocument.ApplyChanges) to the next iteration of the change loop passes the History.IsEmpty test that guards the reconcile block (only an error return leaves the loop earlier) — normalised positions are sums over live predecessors, so a position computed after a later change of the same pack has tombstoned something in front of it is a different position",
+		Run: func(x *Ctx) {
+			fn := x.fn(docPkg + ".(*Document).applyChanges")
+			apply := x.P.FnObj(docPkg + ".(*InternalDocument).ApplyChanges")
+			isEmpty := x.P.FnObj(docPkg + ".(*History).IsEmpty")
+			if fn == nil || apply == nil || isEmpty == nil {
+				x.C.Unresolved(x.id(), "Document.applyChanges / InternalDocument.ApplyChanges / History.IsEmpty")
+				return
+			}
+			as, es := callsToIn(fn, apply), callsToIn(fn, isEmpty)
+			k := "func=" + prog.FnName(fn)
+			if len(as) != 1 || len(es) == 0 {
+				x.fail(k+" shape", x.fpos(fn), "applyChanges no longer applies each change and tests History.IsEmpty before reconciling")
+				return
+			}
+			a := as[0]
+			// the loop header: a block that dominates the apply and is reachable from it
+			var head *ssa.BasicBlock
+			for _, b := range fn.Blocks {
+				if b != a.Block() && b.Dominates(a.Block()) && prog.ReachableFrom(a.Block(), nil)[b] {
+					head = b
+				}
+			}
+			if head == nil {
+				x.fail(k+" loop", x.fpos(fn), "the change loop was not found")
+				return
+			}
+			ok := true
+			for _, sc := range a.Block().Succs {
+				bypass := true
+				for _, e := range es {
+					_ = e
+				}
+				// can the header be reached again without passing any IsEmpty block?
+				seen := map[*ssa.BasicBlock]bool{}
+				for _, e := range es {
+					seen[e.Block()] = true
+				}
+				q := []*ssa.BasicBlock{sc}
+				reached := false
+				for len(q) > 0 {
+					cb := q[len(q)-1]
+					q = q[:len(q)-1]
+					if seen[cb] {
+						continue
+					}
+					seen[cb] = true
+					if cb == head {
+						reached = true
+						break
+					}
+					q = append(q, cb.Succs...)
+				}
+				if !reached {
+					bypass = false
+				}
+				if bypass {
+					ok = false
+				}
+			}
+			x.check(ok, k+" reconcile-guard-in-every-iteration", x.pos(a), "every path to the next change passes the History.IsEmpty test", "the next change can be applied without the reconcile block having been reached for this one (reconciliation batched over the pack or skipped for some changes): stacked undo positions are normalised against a document that later changes of the pack have already altered")
+		}})
+}
